@@ -1,10 +1,193 @@
-import MosnVerif.Lemmas.BoltHeader
-import MosnVerif.Model.BoltV2
-import MosnVerif.Model.BoltRef
-namespace MosnVerif.Props.C01
-open MosnVerif.Model
+import MosnVerif.Lemmas.BoltSpec
+/-!
+# C01 — forwarding fidelity (property theorems only)
 
+xprotocol part: bolt and boltv2 (request / response / one-way), the key/value header block they share.
+All theorems are about the models in `Model/Bolt*.lean`, whose offsets, widths, header lengths, protocol codes,
+`RequestIdIndex`, header writers and refusal test are the regenerated `Gen.C01Bolt` / `Gen.C01BoltV2` definitions.
+Every statement quantifies over all byte strings / all frame values: no bound on any length.
+-/
+namespace MosnVerif.Props.C01
+open MosnVerif.Model MosnVerif.Model.Bytes MosnVerif.Model.Bolt
+
+/-! ## the key/value header block -/
+
+/-- **decode_encode**: for every list of pairs whose key and value lengths fit the 4-byte length (and are not the
+`0xFFFFFFFF` marker), decoding the encoded block gives the list back — any number of pairs, empty keys and values,
+arbitrary bytes. -/
 theorem kv_decode_encode (kvs : List BoltHeader.KV) (hw : BoltHeader.wf kvs) :
     BoltHeader.decode (BoltHeader.encode kvs) = .ok kvs := BoltHeader.decode_encode kvs hw
+
+/-- `GetHeaderEncodeLength` is the length of what `EncodeHeader` writes: Σ (8 + |k| + |v|). -/
+theorem kv_encode_length (kvs : List BoltHeader.KV) : (BoltHeader.encode kvs).length = BoltHeader.encodeLen kvs :=
+  BoltHeader.encode_length kvs
+
+example : BoltHeader.wf [([], []), ([0x6b], [0, 255, 7]), ([0x6b], [])] := by
+  intro kv h; simp at h; rcases h with rfl | rfl | rfl <;> decide
+example : BoltHeader.decode (BoltHeader.encode [([], []), ([0x6b], [0, 255, 7]), ([0x6b], [])])
+    = .ok [([], []), ([0x6b], [0, 255, 7]), ([0x6b], [])] := by decide
+
+/-! ## bolt / boltv2: the fast path -/
+
+/-- **fast_identity** (bolt and boltv2, request / response / one-way, through either codec's `Decode`):
+whenever `Decode` returns a frame, the frame forwarded after `SetRequestId i` is the received frame
+`b.take n` with the 4 bytes at `RequestIdIndex` overwritten by `i` — for every value of every other byte, hence of
+every fixed field, and every class / header / content length; `n` is the header length plus the three length
+fields, the id window lies inside the frame, and the read buffer is not referenced (the result is a function of
+`b.take n` only). -/
+theorem bolt_fast_identity (c : Codec) (b : Bytes) (f : Frame) (n i : Nat) (h : decode c b = .frame f n) :
+    encode (setId f i) = some (patch (b.take n) (kindOf f.kind).idIdx (be 4 i)) ∧
+    (kindOf f.kind).idIdx + 4 ≤ n ∧ n ≤ b.length ∧
+    n = (kindOf f.kind).hdrLen + f.classLen + f.headerLen + f.contentLen :=
+  fast_identity_proto c b f n h i
+
+/-- the patched frame has the length of the received one and differs from it only inside `[idIdx, idIdx+4)`,
+where it carries the new id. -/
+theorem bolt_fast_only_id_changes (c : Codec) (b : Bytes) (f : Frame) (n i : Nat) (h : decode c b = .frame f n) :
+    ∃ out, encode (setId f i) = some out ∧ out.length = n ∧
+      (∀ j, j < (kindOf f.kind).idIdx ∨ (kindOf f.kind).idIdx + 4 ≤ j → out[j]? = (b.take n)[j]?) ∧
+      slice out (kindOf f.kind).idIdx ((kindOf f.kind).idIdx + 4) = be 4 i := by
+  obtain ⟨he, hin, hle, _⟩ := fast_identity_proto c b f n h i
+  have hl : (b.take n).length = n := by simp; omega
+  have hw : (kindOf f.kind).idIdx + (be 4 i).length ≤ (b.take n).length := by simp [hl]; omega
+  refine ⟨_, he, ?_, ?_, ?_⟩
+  · rw [patch_length _ _ _ hw, hl]
+  · intro j hj
+    exact patch_getElem?_outside _ _ _ _ hw (by simpa using hj)
+  · have := slice_patch_window (b.take n) (be 4 i) (kindOf f.kind).idIdx hw
+    simpa using this
+
+/-- the request-id index and header lengths the theorems talk about are the regenerated Go constants -/
+theorem bolt_layout_constants :
+    (kindOf .v1req).idIdx = Gen.C01Bolt.RequestIdIndex ∧ (kindOf .v1resp).idIdx = Gen.C01Bolt.RequestIdIndex ∧
+    (kindOf .v2req).idIdx = Gen.C01BoltV2.RequestIdIndex ∧ (kindOf .v2resp).idIdx = Gen.C01BoltV2.RequestIdIndex ∧
+    (kindOf .v1req).hdrLen = Gen.C01Bolt.RequestHeaderLen ∧ (kindOf .v1resp).hdrLen = Gen.C01Bolt.ResponseHeaderLen ∧
+    (kindOf .v2req).hdrLen = Gen.C01BoltV2.RequestHeaderLen ∧ (kindOf .v2resp).hdrLen = Gen.C01BoltV2.ResponseHeaderLen := by
+  decide
+
+/-! ## bolt / boltv2: the slow path -/
+
+/-- **slow_roundtrip**: any frame value that takes the slow path (built locally, or `Changed` / `ContentChanged` set)
+whose fixed fields are ones a decoder produces and whose class, header pairs and body are representable
+(class ≤ 65535 bytes, encoded header block ≤ 65535 bytes, body < 2³² bytes) re-encodes to bytes that either codec
+decodes — consuming all of them — to exactly the same fixed fields, class, pair list and body, with the three length
+fields equal to the section lengths. -/
+theorem bolt_slow_roundtrip (c : Codec) (m : Frame) (ow : Bool) (hs : slowPath m)
+    (hw : metaWF m.kind m.fx ow) (hrep : Ref.representable m = true) :
+    ∃ out, encode m = some out ∧
+      decode c out = .frame
+        { kind := m.kind, fx := m.fx, classLen := m.cls.length, headerLen := BoltHeader.encodeLen m.kvs,
+          contentLen := m.content.length, cls := m.cls, kvs := m.kvs, content := m.content,
+          raw := some out, hdrChanged := false, contentChanged := false } out.length := by
+  obtain ⟨out, ho, hd⟩ := slow_roundtrip_proto c m ow hw hrep
+  exact ⟨out, (encode_slow m hs).trans ho, hd⟩
+
+/-- **slow_refuses**: if the class, the encoded header block or the body does not fit its length field, `Encode`
+returns an error instead of a truncated frame. -/
+theorem bolt_slow_refuses (m : Frame) (hs : slowPath m) (hrep : Ref.representable m = false) : encode m = none := by
+  rw [encode_slow m hs]; exact encodeSlow_none _ m hrep
+
+/-- **modified_roundtrip** — the property's sentence about modified frames, end to end: take any frame either codec
+decoded from any bytes, apply any list of header `Set` / `Del`, `SetData`, and `SetRequestId`; if that marked the
+frame dirty then either the modified message is representable and the output decodes (with the same codec, consuming
+everything) to exactly the modified class / pairs / body and the original fixed fields with the new id, or it is not
+and `Encode` refuses. -/
+theorem bolt_modified_roundtrip (c : Codec) (b : Bytes) (f : Frame) (n : Nat) (h : decode c b = .frame f n)
+    (ops : List Op) (i : Nat)
+    (hdirty : (modify ops f).hdrChanged = true ∨ (modify ops f).contentChanged = true) :
+    let m := setId (modify ops f) i
+    (Ref.representable m = true ∧ ∃ out, encode m = some out ∧
+      decode c out = .frame
+        { kind := f.kind, fx := { f.fx with reqId := i % 2 ^ 32 }, classLen := m.cls.length,
+          headerLen := BoltHeader.encodeLen m.kvs, contentLen := m.content.length, cls := m.cls, kvs := m.kvs,
+          content := m.content, raw := some out, hdrChanged := false, contentChanged := false } out.length)
+    ∨ (Ref.representable m = false ∧ encode m = none) := by
+  intro m
+  obtain ⟨ow, hw⟩ := decode_metaWF c b f n h
+  obtain ⟨mk, mfx, _⟩ := modify_kind ops f
+  have m_kind : m.kind = f.kind := by simp [m, setId, mk]
+  have m_fx : m.fx = { f.fx with reqId := i % 2 ^ 32 } := by simp [m, setId, mfx]
+  have hs : slowPath m := by
+    rcases hdirty with hd | hd
+    · exact Or.inr (Or.inl (by simpa [m, setId] using hd))
+    · exact Or.inr (Or.inr (by simpa [m, setId] using hd))
+  cases hrep : Ref.representable m with
+  | true =>
+    left
+    refine ⟨rfl, ?_⟩
+    have hw' : metaWF m.kind m.fx ow := by rw [m_kind, m_fx]; exact metaWF_setId _ _ _ _ hw
+    obtain ⟨out, ho, hd⟩ := bolt_slow_roundtrip c m ow hs hw' hrep
+    exact ⟨out, ho, by rw [hd, m_kind, m_fx]⟩
+  | false => exact Or.inr ⟨rfl, bolt_slow_refuses m hs hrep⟩
+
+/-- the refusal test of the model is the regenerated `lengthsFit` of `bolt/encoder.go` -/
+theorem bolt_representable_is_lengthsFit (m : Frame) :
+    Ref.representable m = Gen.C01Bolt.lengthsFit m.cls.length (BoltHeader.encodeLen m.kvs) m.content.length := by
+  cases h : Gen.C01Bolt.lengthsFit m.cls.length (BoltHeader.encodeLen m.kvs) m.content.length
+  · cases hr : Ref.representable m
+    · rfl
+    · simp only [Ref.representable, Bool.and_eq_true, decide_eq_true_eq] at hr
+      rw [(lengthsFit_iff _ _ _).mpr ⟨hr.1.1, hr.1.2, hr.2⟩] at h; cases h
+  · have := (lengthsFit_iff _ _ _).mp h
+    simp [Ref.representable, this.1, this.2.1, this.2.2]
+
+/-! ## the executable predicate used on implementation outputs -/
+
+/-- **spec_holds_on_model**: on every input, for every codec, modification list and id, what the model does satisfies
+the reference predicate `Ref.holds` that `mosnmodel` evaluates on the implementation's outputs. -/
+theorem bolt_spec_holds_on_model (c : Codec) (inp : Bytes) (ops : List Op) (id : Nat) :
+    (∀ f n, decode c inp = .frame f n →
+      Ref.holds (isV2 c) inp (modify ops) id true n (encode (setId (modify ops f) id)) = true) ∧
+    ((∀ f n, decode c inp ≠ .frame f n) →
+      ∀ acc k out, Ref.holds (isV2 c) inp (modify ops) id acc k out = true) :=
+  ⟨fun f n h => holds_frame c inp ops id f n h, fun h acc k out => holds_noframe c inp _ id h acc k out⟩
+
+/-! ## non-vacuity: concrete frames -/
+
+/-- a bolt request: cmdcode 1, ver2 1, id 0x01020304, codec 1, timeout 3000, class "ab", one pair ("k","v"), body 3 bytes -/
+def exReq : Bytes :=
+  [1, 1, 0, 1, 1, 1, 2, 3, 4, 1, 0, 0, 0x0b, 0xb8, 0, 2, 0, 10, 0, 0, 0, 3,
+   0x61, 0x62, 0, 0, 0, 1, 0x6b, 0, 0, 0, 1, 0x76, 9, 8, 7]
+
+example : (match decode .bolt (exReq ++ [0xAA, 0xBB]) with
+    | .frame f n => n == 37 && f.kind == .v1req && f.fx.reqId == 0x01020304 && f.fx.timeout == 3000 &&
+        f.cls == [0x61, 0x62] && f.kvs == [([0x6b], [0x76])] && f.content == [9, 8, 7]
+    | _ => false) = true := by decide
+
+-- forwarded unmodified with id 0xAABBCCDD: only bytes 5..8 change
+example : (match decode .bolt (exReq ++ [0xAA, 0xBB]) with
+    | .frame f _ => encode (setId f 0xAABBCCDD) == some (exReq.take 5 ++ [0xAA, 0xBB, 0xCC, 0xDD] ++ exReq.drop 9)
+    | _ => false) = true := by decide
+
+-- a header Set marks the frame dirty and the slow path is taken; the message stays representable
+example : (match decode .bolt exReq with
+    | .frame f _ => let m := setId (modify [.set [0x6b] [1, 2], .set [] []] f) 7
+        m.hdrChanged && Ref.representable m &&
+        (match encode m with
+         | some out => (match decode .boltv2 out with
+            | .frame f' n' => n' == out.length && f'.kvs == [([0x6b], [1, 2]), ([], [])] && f'.fx.reqId == 7 && f'.headerLen == 19
+            | _ => false)
+         | none => false)
+    | _ => false) = true := by decide
+
+-- the same frame through the boltv2 codec (hand-over on the first byte), and a boltv2 one-way frame
+example : (match decode .boltv2 exReq with | .frame f n => f.kind == .v1req && n == 37 | _ => false) = true := by decide
+example : (match decode .bolt [2, 1, 2, 0, 1, 1, 0, 0, 0, 9, 1, 0, 0, 0, 0, 0, 0, 0, 0, 0, 0, 0, 0, 1, 0x55] with
+    | .frame f n => f.kind == .v2req && f.fx.cmdType == 2 && n == 25 && f.content == [0x55] | _ => false) = true := by decide
+
+-- hypotheses of `bolt_slow_roundtrip` are satisfiable by a locally built heartbeat (no raw frame)
+def exHeartbeat : Frame :=
+  { kind := .v1req,
+    fx := { proto := 1, cmdType := 1, cmdCode := 0, version := 1, reqId := 5, codec := 1, timeout := 4294967295 },
+    classLen := 0, headerLen := 0, contentLen := 0, cls := [], kvs := [], content := [],
+    raw := none, hdrChanged := false, contentChanged := false }
+example : slowPath exHeartbeat := Or.inl rfl
+example : metaWF exHeartbeat.kind exHeartbeat.fx false := by simp [metaWF, owOK, exHeartbeat]
+example : Ref.representable exHeartbeat = true := by decide
+example : encode exHeartbeat = some [1, 1, 0, 0, 1, 0, 0, 0, 5, 1, 255, 255, 255, 255, 0, 0, 0, 0, 0, 0, 0, 0] := by decide
+
+-- a non-representable modification exists (so `bolt_slow_refuses` is not vacuous): a 65536-byte class
+example : Ref.representable { exHeartbeat with cls := List.replicate 65536 0, hdrChanged := true } = false := by
+  simp only [Ref.representable, List.length_replicate]; decide
 
 end MosnVerif.Props.C01
